@@ -290,6 +290,18 @@ func c16PlainStrings(m map[string]any) map[string]string {
 	return out
 }
 
+// c16EncoderDecoys: both encoders are called on an unrelated map / document with a writer that fails
+// after 0 / 3 / 17 / 40 bytes (chosen by salt) — an earlier encode that failed part-way must leave
+// no trace in a later one (the round-trip clause holds for every history of calls).
+func c16EncoderDecoys(salt int) {
+	n := []int{0, 3, 17, 40}[salt%4]
+	decoy := map[string]interface{}{"zz_decoy.user": "u", "zz_decoy.password": "p", "zz_decoy.url": "jdbc.x"}
+	_ = props.EncoderFn(&failAfterWriter{n: n}, decoy)
+	decoyDom := dom.Builder().Container()
+	decoyDom.AddValue("zz_decoy.user", dom.LeafNode("u")).AddValue("zz_decoy.password", dom.LeafNode("p")).AddValue("zz_decoy.url", dom.LeafNode("jdbc.x"))
+	_ = props.DomEncoderFn(&failAfterWriter{n: n}, decoyDom)
+}
+
 // c16FailReader hands out the first n bytes of s and then fails.
 type c16FailReader struct {
 	s string
@@ -434,6 +446,7 @@ func c16ExactLarge(c *Ctx, kv map[string]string, text string) {
 			c.Direct("flattenPlain(Unflatten(kv))==kv", same, with(d))
 		}
 		// --- encoders and the way back
+		c16EncoderDecoys(len(text))
 		{
 			var buf bytes.Buffer
 			err := props.EncoderFn(&buf, kvAny())
